@@ -113,7 +113,8 @@ func VerifHarness_C05_forcount() {
 func VerifHarness_C05_equ() {
 	words := []string{"x", "y", "+", "1"}
 	mk := func(name string) []token {
-		n := vPick(name+"len", 1, vParam("deflen"))
+		// a definition may be empty ("x equ" followed only by a comment)
+		n := vPick(name+"len", 0, vParam("deflen"))
 		var out []token
 		for i := 0; i < n; i++ {
 			w := words[vPick(name, 0, len(words)-1)]
